@@ -55,8 +55,8 @@ Proof. reflexivity. Qed.
 Definition finish (io rq op : bool) (sn n : str) (num : N) (c : fcore) (lbl : plabel) (ty : ptype) (tn : str)
            (msgs : list dmsg) (imps : list str) : outcome pres :=
   if rq && op then Err "cannot be both required and optional"
-  else if io && (op || match lbl with LRepeated => true | _ => false end)
-       then Err "oneof member with a label"
+  else if io && op
+       then Err "optional oneof member"
        else Ok (mkPres [mkField sn n num ty lbl op tn io] msgs (fc_enums c)
                        (imps ++ if rq then [imp_validate; imp_ext] else [])).
 
@@ -69,6 +69,7 @@ Lemma cv_property_eq ev path io num n rq op f :
                (fc_imports c ++ if fc_validate c then [imp_validate] else []))
   | FMap it =>
       obind (cv_item ev path (camel n) it) (fun c =>
+        if io then Err "map entry outside its message" else
         finish io rq op (snake n) n num c LRepeated TMessage (map_name (snake n))
                (fc_msgs c ++ [DMsg (map_name (snake n)) MMapEntry [key_field; value_field c] [] []])
                (fc_imports c))
@@ -353,7 +354,7 @@ Proof.
       intros ms0 es0 Hm' He'. rewrite property_inline_ok_eq.
       destruct (inline_ok_container n it ms0 es0) as [Ea _]. rewrite Ea. split; [apply Hin; assumption|exact I].
     + (* map *)
-      inv_ok H. apply finish_inv in H. destruct H as (Hf & Hm & He).
+      inv_ok H. destruct io; [discriminate|]. apply finish_inv in H. destruct H as (Hf & Hm & He).
       destruct (IHit _ _ _ _ E) as (Ht & Hmn & Hen & Hin). rewrite Hf, Hm, He.
       split; [eexists; split; [reflexivity|]; unfold J5sContract.field_decl_ok, decl_ptype; cbn; repeat split; reflexivity|].
       cbn [J5sContract.prop_msg_names J5sContract.prop_enum_names elem is_map].
@@ -386,11 +387,11 @@ Definition item_total (ev : env) (f : field) : Prop :=
 
 Lemma finish_total io rq op sn n num c lbl ty tn msgs imps :
   rq && op = false ->
-  (io = true -> op = false /\ lbl = LOptional) ->
+  (io = true -> op = false) ->
   exists r, finish io rq op sn n num c lbl ty tn msgs imps = Ok r.
 Proof.
   intros H1 H2. unfold finish. rewrite H1. destruct io.
-  - destruct (H2 eq_refl) as [-> ->]. cbn. eexists; reflexivity.
+  - rewrite (H2 eq_refl). cbn. eexists; reflexivity.
   - cbn. eexists; reflexivity.
 Qed.
 
@@ -429,9 +430,10 @@ Proof.
     1-7: destruct (IH Hw path (camel n)) as [c Hc]; rewrite Hc; cbn [obind];
          apply finish_total; [exact Hro|intros Hi; destruct (Hio' Hi); auto].
     + destruct (IHit Hw path (camel n)) as [c Hc]. rewrite Hc. cbn [obind].
-      apply finish_total; [exact Hro|]. intros Hi. destruct (Hio' Hi) as [_ Hr]. cbn in Hr. discriminate.
+      apply finish_total; [exact Hro|]. intros Hi. destruct (Hio' Hi) as [Ho _]. exact Ho.
     + destruct (IHit Hw path (camel n)) as [c Hc]. rewrite Hc. cbn [obind].
-      apply finish_total; [exact Hro|]. intros Hi. destruct (Hio' Hi) as [_ Hr]. cbn in Hr. discriminate.
+      destruct io; [destruct (Hio' eq_refl) as [_ Hr]; cbn in Hr; discriminate|].
+      apply finish_total; [exact Hro|]. intros Hi. discriminate.
 Qed.
 
 End Refine.
